@@ -26,7 +26,7 @@ YOUR TASK: produce THREE different, independent, realistic source changes (the k
 The three changes should touch different mechanisms / code sites where possible and differ in what is needed to trigger them. Do not add comments in the code that reveal the change is deliberate. Do not edit tests.
 
 For each change k in 1,2,3 write into /tmp/seed_out/{pid}/k/ :
-  - patch.diff : `git diff` of ONLY that change against the unchanged HEAD (so apply each change alone on a clean tree: use `git stash`/`git checkout -- .` between changes),
+  - patch.diff : `git diff` of ONLY that change against the unchanged HEAD (so apply each change alone on a clean tree: use `git checkout -- .` between changes and `git apply` to re-apply; do NOT use `git stash`, the stash is shared between worktrees),
   - demo.py    : a small standalone program that exits 0 on the unchanged tree and exits non-zero (assertion failure) with the change applied, demonstrating the property violation through the public API,
   - notes.md   : 5-10 lines: what the change is, exactly which inputs/sequences trigger it, why the existing tests do not notice.
 Verify all of it yourself: for each change, on a clean tree apply patch.diff, run the full test suite (must pass), run demo.py (must fail); then `git checkout -- .`, run demo.py (must pass). Leave the worktree clean (git checkout -- . ; no untracked files) when you finish.
